@@ -883,7 +883,7 @@ theorem dmachine_succ (fuel : Nat) (ih : DMachine fuel) : DMachine (fuel + 1) :=
   · intro w d step now
     simp only [performStep]
     split
-    · exact disc_hd_err _ _ _
+    · cases step <;> exact disc_hd_err _ _ _
     · exact i5 _ _ _
     · split
       · exact disc_hd_err _ _ _
